@@ -126,25 +126,23 @@ Qed.
 Definition good_line (k : cfg) (l : str) : Prop := line_fits k l = true /\ truncate_msg l = l.
 
 Lemma payload_good k p :
-  env_ok k = true ->
   allc no1 p = true -> p <> [] -> (Z.of_N (blen p) <= line_room k)%Z -> good_line k (makeReply k p).
 Proof.
-  intros He H1 Hne Hp. assert (Hf : line_fits k (makeReply k p) = true).
-  { apply line_fits_room; [exact He| |exact Hp]. rewrite (strip1_id p H1). destruct p; [congruence|reflexivity]. }
+  intros H1 Hne Hp. assert (Hf : line_fits k (makeReply k p) = true).
+  { apply line_fits_room; [|exact Hp]. rewrite (strip1_id p H1). destruct p; [congruence|reflexivity]. }
   split; [exact Hf|apply (fits_untruncated k); exact Hf].
 Qed.
 
 Lemma annot_good k (budget : Z) : forall chunks,
-  env_ok k = true -> (length chunks <= 100)%nat -> (budget + Z.of_N gen.T12.MORE_RESERVE <= line_room k)%Z ->
+  (length chunks <= 100)%nat -> (budget + Z.of_N gen.T12.MORE_RESERVE <= line_room k)%Z ->
   Forall (fun c => allc no1 c = true /\ c <> [] /\ (Z.of_N (blen c) <= budget)%Z) chunks ->
   Forall (good_line k) (annot k 0 chunks).
 Proof.
-  intros chunks He Hlen Hb Hall. induction Hall as [|c rest (H1 & Hne & Hc) _ IH]; [constructor|].
+  intros chunks Hlen Hb Hall. induction Hall as [|c rest (H1 & Hne & Hc) _ IH]; [constructor|].
   cbn [length] in Hlen. cbn [annot Nat.add]. constructor; [|apply IH; lia].
   destruct (N.of_nat (length rest) =? 0) eqn:E.
   - apply payload_good; try assumption. rewrite T_reserve in Hb. lia.
   - apply payload_good.
-    + exact He.
     + rewrite allc_app, H1, suffix_no1. reflexivity.
     + destruct c; [congruence|discriminate].
     + rewrite blen_app.
@@ -160,13 +158,12 @@ Proof.
 Qed.
 
 (* ---------- the domain ---------- *)
-(* the reserve reply() computes covers what _makeReply() adds (env_ok: every plain reply in a channel
-   or a query, and private=True with to=); plain non-empty text; splitting switched on; at least one chunk allowed; the chunk budget is at
+(* plain non-empty text; splitting switched on; at least one chunk allowed; the chunk budget is at
    least 4 bytes after the reserve (byteTextWrap terminates) and not larger than the room of the line
    (always true when mores.length = 0); at most 99 messages pending (the "(XX more messages)" text
    provides for two digits). *)
 Definition plain_dom (k : cfg) (s0 : str) : bool :=
-  env_ok k && plain_text s0 && nonempty s0 && c_mores k && (1 <=? c_maximum k) &&
+  plain_text s0 && nonempty s0 && c_mores k && (1 <=? c_maximum k) &&
   (25 <=? allowed_length k)%Z && (allowed_length k <=? line_room k)%Z &&
   match reply_chunks k s0 with Ok chunks => (length chunks <=? 100)%nat | Raise _ => true end.
 
@@ -201,7 +198,7 @@ Theorem reply_plain_end_to_end : forall k s0 sent L number times,
 Proof.
   intros k s0 sent L number times Hdom Hr Hn Hl lines text.
   unfold plain_dom in Hdom. repeat (apply andb_true_iff in Hdom as [Hdom ?]).
-  rename H into Hcount, H0 into Hroom, H1 into H25, H2 into Hmax, H3 into Hmores, H4 into Hne0, H5 into Hplain, Hdom into Henv.
+  rename H into Hcount, H0 into Hroom, H1 into H25, H2 into Hmax, H3 into Hmores, H4 into Hne0, Hdom into Hplain.
   apply Z.leb_le in Hroom, H25. apply N.leb_le in Hmax.
   destruct (more_sequence k s0 sent L number times Hr Hn Hl) as (chunks & Hc & Hlines).
   rewrite Hc in Hcount. apply Nat.leb_le in Hcount.
@@ -230,7 +227,7 @@ Proof.
       { rewrite Forall_forall in *. intros c Hin. specialize (H1 c Hin). specialize (Hnil c Hin). specialize (Hf c Hin).
         cbv beta in Hf. rewrite <- utf8_len. repeat split; try assumption. lia. }
       split; [eapply Forall_impl; [|exact Hall]; intros c (A & B & _); split; assumption|].
-      split; [apply (annot_good k (allowed_length k - Z.of_N gen.T12.MORE_RESERVE)); [exact Henv|exact Hcount|lia|exact Hall]|].
+      split; [apply (annot_good k (allowed_length k - Z.of_N gen.T12.MORE_RESERVE)); [exact Hcount|lia|exact Hall]|].
       right. exact Hcat. }
   destruct Hgoal as (Hch & Hgood & Hb).
   exists chunks. unfold lines. rewrite Hlines.
@@ -245,7 +242,7 @@ Theorem reply_plain_total : forall k s0,
   plain_dom k s0 = true -> has_surrogate s0 = false -> exists sent L, reply k s0 = Ok (sent, L).
 Proof.
   intros k s0 Hdom Hsur0. unfold plain_dom in Hdom. repeat (apply andb_true_iff in Hdom as [Hdom ?]).
-  rename H0 into Hroom, H1 into H25, H2 into Hmax, H3 into Hmores, H4 into Hne0, H5 into Hplain.
+  rename H0 into Hroom, H1 into H25, H2 into Hmax, H3 into Hmores, H4 into Hne0, Hdom into Hplain.
   apply Z.leb_le in Hroom, H25.
   destruct (reply_text_firstn k s0 ltac:(lia)) as (m & Hm & _ & _).
   assert (Hsur : has_surrogate (reply_text k s0) = false).
